@@ -54,22 +54,22 @@ PROPS = {
     "C02": {"plans": ["C02"], "codes": [20],
             "rule": "C02 plan: every (deriving operation, in-place edit, side) pair on a 3-row frame followed by further edits on alternating sides, "
                     "then random interleavings over up to 5 live frames; every frame other than the edited one must keep its content."},
-    "C03": {"plans": ["C03"], "codes": [1, 2, 44],
+    "C03": {"focus": ["join"], "plans": ["C03"], "codes": [1, 2, 44],
             "rule": "C03 plan: all pairs of key columns up to a length over {nil,1,2,int64 1,1.0,'1','a',true} (exhaustive stream), then random frame pairs "
                     "with duplicate, missing, one-sided, nil and mixed-type keys; each history runs the four joins on one pair."},
-    "C04": {"plans": ["C04"], "codes": [1, 2, 42], "known_codes": [43],
+    "C04": {"focus": ["groupby", "groupagg"], "plans": ["C04"], "codes": [1, 2, 42], "known_codes": [43],
             "rule": "C04 plan: Groupby on one column or a list, key cells of mixed scalar types incl. strings containing '|'; 20% of frames use a colliding alphabet."},
-    "C05": {"plans": ["C05"], "codes": [1, 2, 48],
+    "C05": {"focus": ["groupagg", "agg"], "plans": ["C05"], "codes": [1, 2, 48],
             "rule": "C05 plan: grouped Sum/Mean/Count with and without column arguments on value columns of every integer and float width plus nil, and the frame-level Sum."},
-    "C06": {"plans": ["C06"], "codes": [1, 2, 40],
+    "C06": {"focus": ["sort"], "plans": ["C06"], "codes": [1, 2, 40],
             "rule": "C06 plan: frames of 0..40 rows, 1-3 sort columns each of one kind plus nils and heavy duplicates, both directions; compared through the ordered-permutation specification and on the sort columns."},
-    "C07": {"plans": ["C07"], "codes": [1, 2, 45],
+    "C07": {"focus": ["dedup", "dedupinplace"], "plans": ["C07"], "codes": [1, 2, 45],
             "rule": "C07 plan: frames over {nil,'nil','','|',':','a|b:c',1,'1',...}, every Keep value (valid or not), subsets, with and without Inplace."},
-    "C08": {"plans": ["C08"], "codes": [1, 2, 47],
+    "C08": {"focus": ["row", "head", "tail", "rowslice", "iloc", "loc", "filter", "multiselect", "droprow", "dropcolumn", "columnnames", "nrows", "ncols"], "plans": ["C08"], "codes": [1, 2, 47],
             "rule": "C08 plan: every count, every (start,end) pair and every predicate row set on frames of 0..R rows (exhaustive stream), then random selection calls incl. Loc/Iloc with repeats."},
-    "C09": {"plans": ["C09"], "codes": [1, 2, 46],
+    "C09": {"focus": ["tocsv", "csvroundtrip"], "plans": ["C09"], "codes": [1, 2, 46],
             "rule": "C09 plan: frames with 1-4 columns whose names and text cells contain commas, quotes, LF, CR, tabs, non-ASCII and empty strings; ints up to 2^53, any float64; the bytes written are compared with the model writer byte for byte and the re-imported frame with the model reader."},
-    "C10": {"plans": ["C10"], "codes": [1, 2, 30, 52],
+    "C10": {"focus": ["fromcsv"], "plans": ["C10"], "codes": [1, 2, 30, 52],
             "rule": "C10 plan: every byte string up to a length over {a , \" LF CR 1} (exhaustive stream), then grammar-generated tables with numeric look-alikes, ragged and blank records, CR/LF variants and byte-level mutations."},
     "C11": {"plans": ["C11"], "codes": [1, 2, 3, 61], "pershard": 10,
             "rule": "C11 plan: every batch size 0(default),1..rows+2 x {sqlite,postgres,mysql} x {fail,replace,append} x table present/absent for frames of 0..R rows "
@@ -85,17 +85,17 @@ PROPS = {
     "C14": {"plans": ["C14"], "codes": [1, 65], "pershard": 10,
             "rule": "C14 plan: every NULL pattern on result sets up to RxR x seven handlers (exhaustive stream), then random result sets over 27 declared type names, ParseDates "
                     "subsets with text/int/float date columns, the four entry points, scan errors, iteration errors at each row, nil handles, empty and failing queries."},
-    "C15": {"plans": ["C15"], "codes": [1, 2, 51, 31],
+    "C15": {"focus": ["fillna", "dropna", "astype", "datetime"], "plans": ["C15"], "codes": [1, 2, 51, 31],
             "rule": "C15 plan: FillNa/DropNa/Astype/AddDatetimeIndex on columns of every kind with nils, unconvertible cells at any position, valid and invalid target names and layouts."},
-    "C16": {"plans": ["C16"], "codes": [1, 2, 49],
+    "C16": {"focus": ["agg", "describe", "add"], "plans": ["C16"], "codes": [1, 2, 49],
             "rule": "C16 plan: Sum/Mean/Min/Max/Describe on columns mixing int, int64, float32, float64 and numeric strings, NaN anywhere, one non-numeric cell at any position, empty columns; Add on frame pairs with independent lengths."},
-    "C17": {"plans": ["C17seq", "C17sched"], "race": ["C17sched"], "codes": [1, 2, 53, 30],
+    "C17": {"focus": ["apply"], "plans": ["C17seq", "C17sched"], "race": ["C17sched"], "codes": [1, 2, 53, 30],
             "rule": "C17 plans: (seq) Apply on both axes with every function of the menu, frames up to 40 rows (more rows than workers); "
                     "(sched) row-wise Apply with its completion order FORCED through the verif-tagged gate hook: every permutation for 1..5 rows, then "
                     "sampled worker-valid orders for 6..40 rows (more rows than workers), the whole plan under the Go race detector."},
-    "C18": {"plans": ["C18"], "codes": [1, 2, 50],
+    "C18": {"focus": ["resample"], "plans": ["C18"], "codes": [1, 2, 50],
             "rule": "C18 plan: frames with an unsorted, repeating time column 1900-2100 in UTC or one fixed-offset zone, six frequency codes, four aggregators, each call repeated 5 times."},
-    "C19": {"plans": ["C19"], "codes": [1, 2, 41, 20], "exhaustive_all": False,
+    "C19": {"focus": ["shift"], "plans": ["C19"], "codes": [1, 2, 41, 20], "exhaustive_all": False,
             "rule": "C19 plan: every frame of 0..R rows x 23 boundary offsets (exhaustive stream), then random frames and offsets; each history is Shift(p) then Shift(-p)."},
     "C20": {"plans": ["C20"], "codes": [30, 31, 32],
             "rule": "C20 plan: histories in which half of the arguments are deliberately invalid (unknown names, out-of-range and extreme indices, unknown option strings, operands with other columns, cells of the wrong kind)."},
